@@ -73,6 +73,14 @@ var verifC02Progs = [...]string{
 	`param (a, b); f := func() {}; g := func() { return }; return [f(), g(), f == f, typeName(f)]`,
 	`param (...r); return [len(r), r]`,
 	`global gx; param (a, b); gx = a + 1; f := func() { gx += b; return gx }; return [f(), gx]`,
+	// --- operations must not write through their operands: arrays that share
+	// a backing array with the operand stay as they were (52-57)
+	`param (a, b); items := [10, 20, 30]; x, y := items[:1]; return [x, y, items]`,
+	`param (a, b); items := [a, b, 3, 4]; s := items[1:2]; p, q, r := s; p = 99; return [p, q, r, s, items]`,
+	`param (a, b); items := [a, b, 3, 4]; var (u, v, w); u, v, w = items[:2]; return [u, v, w, items]`,
+	`param (a, b); base := [1, 2, 3, 4]; f := func(x, y, z) { return [x, y, z] }; h := base[:2]; r := f(a, ...h); return [r, h, base]`,
+	`param (a, b); base := [1, 2, 3]; g := func(p, ...rest) { return [p, rest] }; r := g(...base[:1]); return [r, base]`,
+	`param (a, b); base := [[1, 2], [3, 4], [5, 6]]; for k, v in base[:1] { x, y, z := v; base[k] = [z, y, x] }; return base`,
 }
 
 // VerifC02Prog: the compiled program behaves as the documented source-level
